@@ -150,6 +150,11 @@ def corpus():
     v0 = rs.Var(vtype="float", unit="month", dflt=0, formulas=[(1, ("o2", 0, ("c", 6), ("o1", 153, ("v", 0, "last_month", False))))])
     v1 = rs.Var(vtype="float", unit="month", dflt=0, formulas=[(1, ("o2", 0, ("c", 7), ("o1", 153, ("v", 0, "same", False))))])
     out.append(_case(rs.SysCase(1, 1, [0], 1, [v0, v1], [(0, M[1], [8])], [("calc", 1, M[4]), ("calc", 0, M[2]), ("calc", 0, M[3])]), ("kind=spiral", "corpus", "F-C02b")))
+    # F-C02c (repaired): an eternal variable marked under one period and read back under another
+    X = rs.Var(vtype="float", unit="month", dflt=0, formulas=[(1, ("o2", 0, ("o2", 0, ("c", 1), ("v", 1, "same", False)), ("v", 2, "same", False)))])
+    E = rs.Var(vtype="float", unit="eternity", dflt=0, formulas=[(1, ("o2", 0, ("c", 5), ("v", 0, "fx:" + M[2], False)))])
+    W = rs.Var(vtype="float", unit="month", dflt=0, formulas=[(1, ("o2", 0, ("c", 100), ("v", 1, "this_year", False)))])
+    out.append(_case(rs.SysCase(1, 1, [0], 1, [X, E, W], [], [("calc", 0, M[3])]), ("kind=spiral", "corpus", "F-C02c")))
     return out
 
 
